@@ -263,7 +263,7 @@ def _item_text(sc, frm, it, lua_path_mode):
             return 'function %s() %s end' % (it['name'], inner)
         return 'function %s()\n %s\nend' % (it['name'], inner)
     if t == 'req':
-        s = req_name(sc, frm, it['pkg'])
+        s = req_name(sc, frm, it['pkg']) + ('.lua' if it.get('alias') else '')
         opt = ',{use_game_loop=true}' if it['ugl'] else (
             ',{use_game_loop=false}' if i % 7 == 3 else '')
         call = 'require(%s%s)' % (lua_quote(s, i), opt)
@@ -518,7 +518,8 @@ def model_traverse(sc, w, lp_value):
                       'ugl': bool(it.get('inner_ugl'))}
             if it['t'] != 'req':
                 continue
-            name = req_name(sc, frm, it['pkg']).lstrip('@')
+            name = req_name(sc, frm, it['pkg']).lstrip('@') + (
+                '.lua' if it.get('alias') else '')
             if name in seen:
                 continue
             target = resolve(name, frm)
@@ -1120,7 +1121,92 @@ def generate(rng, prop, tier, index):      # noqa: F811
         sc['proj_symlink'] = index % 33 != 3
     if index % 7 in (2, 3):
         sc['out_prior'] = 'cart'
+    _round8(core.derive_rng(index, 'pkggraph-round8',
+                            rng.randrange(10**9)), sc)
     return sc
+
+
+def _max_id(sc):
+    ids = [0]
+    for f in [sc['main']] + sc['pkgs']:
+        for it in f['items']:
+            ids.append(it.get('id', 0))
+            ids.extend(it.get('inner') or [])
+    return max(ids)
+
+
+def _round8(rng, sc):
+    """Variations added in round 8, drawn from a generator of their own
+    after everything else (the scenarios of earlier rounds stay what they
+    were apart from what is added here)."""
+    pk = sc['pkgs']
+    malformed = (sc.get('fault') or {}).get('kind') == 'MALFORMED'
+    r = rng.random()
+    if r < 0.035 and not sc.get('fault'):
+        # a dense project: every module requires the same set of libraries
+        # (a hundred and more require() calls for names already embedded)
+        nid = [20000]
+
+        def nx():
+            nid[0] += 1
+            return nid[0]
+        nlib = rng.choice([9, 10, 11])
+        nmod = rng.choice([10, 11, 12])
+        pkgs = [{'name': 'l%d' % i, 'dir': '', 'final_newline': True,
+                 'items': [{'t': 'm', 'id': nx()}], 'seps': ['\n']}
+                for i in range(nlib)]
+        for k in range(nmod):
+            items = [{'t': 'req', 'pkg': j, 'ugl': False, 'id': nx(),
+                      'form': 'stmt'} for j in range(nlib)]
+            items.append({'t': 'm', 'id': nx()})
+            pkgs.append({'name': 'm%d' % k, 'dir': '', 'final_newline': True,
+                         'items': items, 'seps': ['\n'] * len(items)})
+        mitems = [{'t': 'req', 'pkg': nlib + k, 'ugl': False, 'id': nx(),
+                   'form': 'stmt'} for k in range(nmod)]
+        mitems.append({'t': 'm', 'id': nx()})
+        sc['pkgs'] = pkgs
+        sc['main'] = {'items': mitems, 'seps': ['\n'] * len(mitems),
+                      'final_newline': True}
+        sc['dense'] = True
+        sc.pop('proj_symlink', None)
+        sc['traced'] = False       # (no cycle; the step bound is for cycles)
+        return
+    if 0.035 <= r < 0.16 and pk:
+        # one file under two names: required once by its name and once with
+        # the extension spelled out, with the opposite use_game_loop choice
+        cands = []
+        for frm in [-1] + list(range(len(pk))):
+            f = sc['main'] if frm == -1 else pk[frm]
+            for k, it in enumerate(f['items']):
+                if it['t'] == 'req' and not it.get('alias') and \
+                        _req_string(sc, frm, it['pkg']) is not None:
+                    cands.append((frm, k))
+        if cands:
+            # (prefer a package with a require() inside a game-loop function)
+            pref = [c for c in cands if any(
+                x['t'] == 'gl' and x.get('inner_req') is not None
+                for x in pk[(sc['main'] if c[0] == -1 else pk[c[0]])
+                            ['items'][c[1]]['pkg']]['items'])]
+            frm, k = rng.choice(pref or cands)
+            f = sc['main'] if frm == -1 else pk[frm]
+            it = f['items'][k]
+            pos = rng.choice([k + 1, k + 1, k + 1, k, len(f['items'])])
+            # (a `return` statement stays the last one of its file)
+            for q, x in enumerate(f['items']):
+                if x['t'] == 'ret':
+                    pos = min(pos, q)
+            f['items'].insert(pos, {'t': 'req', 'pkg': it['pkg'],
+                                    'ugl': not it['ugl'], 'alias': True,
+                                    'id': _max_id(sc) + 1, 'form': 'stmt'})
+            f['seps'].insert(min(pos, len(f['seps'])), '\n')
+    if 0.16 <= r < 0.22 and pk and not malformed:
+        # a load-path separator inside a package name (a legal file name)
+        plain = [i for i, p_ in enumerate(pk)
+                 if p_['name'].isalnum() and not p_.get('selfdir') and
+                 not p_.get('vendor') and not p_.get('uplib')]
+        if plain:
+            i = rng.choice(plain)
+            pk[i]['name'] += rng.choice([';b', ';p0', ';', ';x.lua'])
 
 
 def shrink(sc):
